@@ -8,14 +8,21 @@ def idx? (n : Nat) (t : Term) : Option Nat := do
   let i ← asNat? t
   if i < n then some i else none
 
-def opOf? (nsrc npfx naset npol : Nat) (pre : Bool) : Term → Option Op
+def opOf? (srcs : List Source) (npfx naset npol : Nat) (pre : Bool) : Term → Option Op
   | .list [.atom "ann", s, p, rpid, a, nh] => do
+      let nsrc := srcs.length
       let nh ← nhOf? nh
       match nh with
       | .v4 _ => pure (.ann (← idx? nsrc s) (← idx? npfx p) (← nat32? rpid) (← idx? naset a) nh)
       | _ => none
-  | .list [.atom "wd", s, p, rpid] => do pure (.wd (← idx? nsrc s) (← idx? npfx p) (← nat32? rpid))
-  | .list [.atom "down", s] => do pure (.down (← idx? nsrc s))
+  | .list [.atom "wd", s, p, rpid] => do let nsrc := srcs.length; pure (.wd (← idx? nsrc s) (← idx? npfx p) (← nat32? rpid))
+  | .list [.atom "down", s] => do pure (.down (← idx? srcs.length s))
+  | .list [.atom "llgr", s] => do
+      if pre then none
+      let i ← idx? srcs.length s
+      match srcs[i]? with
+      | some src => if src.kind = .peer then pure (.llgr i) else none
+      | none => none
   | .list [.atom "reset", k] =>
       if pre then none else
       match k with
@@ -30,7 +37,7 @@ def pfxOf? (k : Nat) : Term → Option (Net × Nat)
       let a ← nat32? a
       let l ← asNat? l
       let s ← asNat? s
-      if l ≤ 32 ∧ s < k then some ((a, l), s) else none
+      if l ≤ 32 ∧ s < k ∧ a % 2 ^ (32 - l) = 0 then some ((a, l), s) else none
   | _ => none
 
 def caseOf? : Term → Option Case01
@@ -43,10 +50,11 @@ def caseOf? : Term → Option Case01
       if s.fam ≠ .ipv4 then none else
       let srcs ← srcs.mapM sourceOf?
       let pfxs ← pfxs.mapM (pfxOf? k)
+      if !(pfxs.map (·.1)).Nodup then none else
       let asets ← asets.mapM attrsOf?
       let pols ← pols.mapM policyOf?
-      let pre ← pre.mapM (opOf? srcs.length pfxs.length asets.length pols.length true)
-      let ops ← ops.mapM (opOf? srcs.length pfxs.length asets.length pols.length false)
+      let pre ← pre.mapM (opOf? srcs pfxs.length asets.length pols.length true)
+      let ops ← ops.mapM (opOf? srcs pfxs.length asets.length pols.length false)
       pure ⟨k, s, srcs, pfxs, asets, pols, pre, ops⟩
   | _ => none
 
@@ -60,13 +68,16 @@ def insRoute (r : Route) : List Route → List Route
 def sortMirror (m : Mirror) : Mirror := m.foldr insRoute []
 
 def routeT (r : Route) : Term :=
-  list [nat r.net.1, nat r.net.2, nat r.pid, nhOptT r.nh, attrsT (sortByCode r.attrs)]
+  if r.amb then list [nat r.net.1, nat r.net.2, nat r.pid, sym "amb"]
+  else list [nat r.net.1, nat r.net.2, nat r.pid, nhOptT r.nh, attrsT (sortByCode r.attrs)]
 
 def mirrorT (tagName : String) (m : Mirror) : Term := list (sym tagName :: (sortMirror m).map routeT)
 
 def routeOf? : Term → Option Route
+  | .list [a, l, pid, .atom "amb"] => do
+      pure ⟨((← asNat? a), (← asNat? l)), (← asNat? pid), none, [], true⟩
   | .list [a, l, pid, nh, as] => do
-      pure ⟨((← asNat? a), (← asNat? l)), (← asNat? pid), (← nhOptOf? nh), (← attrsOf? as)⟩
+      pure ⟨((← asNat? a), (← asNat? l)), (← asNat? pid), (← nhOptOf? nh), (← attrsOf? as), false⟩
   | _ => none
 
 def mirrorOf? (tagName : String) : Term → Option Mirror
@@ -74,12 +85,12 @@ def mirrorOf? (tagName : String) : Term → Option Mirror
   | _ => none
 
 def obsT (o : Obs01) : Term :=
-  tag "obs" [tag "reuse" [nat o.reuse], list (sym "flushes" :: o.flushes.map (mirrorT "m")),
+  tag "obs" [tag "reuse" [nat o.reuse], tag "overtaken" [nat o.overtaken], list (sym "flushes" :: o.flushes.map (mirrorT "m")),
              mirrorT "final" o.final, mirrorT "dump" o.dump]
 
 def obsOf? : Term → Option Obs01
-  | .list [.atom "obs", .list [.atom "reuse", n], .list (.atom "flushes" :: fs), fin, dump] => do
-      pure ⟨(← asNat? n), (← fs.mapM (mirrorOf? "m")), (← mirrorOf? "final" fin), (← mirrorOf? "dump" dump)⟩
+  | .list [.atom "obs", .list [.atom "reuse", n], .list [.atom "overtaken", ov], .list (.atom "flushes" :: fs), fin, dump] => do
+      pure ⟨(← asNat? n), (← asNat? ov), (← fs.mapM (mirrorOf? "m")), (← mirrorOf? "final" fin), (← mirrorOf? "dump" dump)⟩
   | _ => none
 
 end Rbgp.Export.Codec01
